@@ -32,14 +32,17 @@ LEVEL_TEXT = ('The comparison methods, the label computation, the setters and th
               'the code by differential execution on every primitive, primitive pair, API argument form x environment and on '
               'exhaustive short strings. Whole patterns (any size, ring closures, several components): get_mapping is proved to return '
               'exactly the embeddings by the documented meaning of every atom and bond (C07 exactness theorem instantiated with '
-              'eq_is_spec / bond_eq_is_spec) and executed against both matcher paths on cage targets. Proof is the right level because the quantifier of the property (all primitives x all '
+              'eq_is_spec / bond_eq_is_spec) and executed against both matcher paths on cage targets; the input string (white-space split, CX '
+              'radical block) is modelled and proved to round-trip for every index list. Proof is the right level because the quantifier of the property (all primitives x all '
               'environments, all strings of the documented subset) is closed by the theorems, not sampled.')
 LEVEL_NOTE = ('Lean kernel; hand-written models validated by correspondence (not a proof about the Python text); gen_query translator; '
               'ring perception (sssr) and connected_components are inputs of the label / matcher model (C06, C07); the search itself is '
               'property C07\'s model and exactness theorem (imported); stereo matching in get_mapping (C12/C07) is outside; the compiled '
               'matcher (C09) is outside the model but its results are compared with the reference path on every pattern inside its '
-              'documented domain; SMARTS strings are ASCII without inner whitespace.')
-TECHNIQUE = 'Lean 4 theorems over an executable model of query __eq__/calc_labels/SMARTS reader + regenerated tables + differential execution'
+              'documented domain; the CX radical scanner is property C15\'s model (imported); the chain of C07 exactness theorems is copied '
+              'verbatim into Proofs/C08IsoExact.lean (same statements, same model definitions) to keep the build independent of Props/C07.lean.')
+TECHNIQUE = ('Lean 4 theorems over an executable model of query __eq__ / calc_labels / SMARTS reader (whole input string incl. CX radical block) / '
+             'whole-pattern get_mapping (C07 matcher model over these comparisons) + regenerated tables + differential execution on both matcher paths')
 HAS_DRIVER = True
 EXTRA_MODULES = []
 FINDINGS_MODULE = 'ChythonModel.Findings.C08'
@@ -58,7 +61,7 @@ RULE = ('queries: every documented primitive with every admissible value, every 
 TRUSTED = ['gen_query translator (imports chython from /repo, AST of tokenize.py, probes the live setters)',
            'Spec/QuerySemantics.lean (written by hand from the docstrings of query.py, element.py, smarts.py)',
            'hand transcription of the four regexes and of Python int() in Model/SmartsParse.lean (validated by exhaustive short strings)']
-ASSUMPTIONS = ['SMARTS text is ASCII and contains no whitespace before the CX block',
+ASSUMPTIONS = ['the SMARTS token itself is ASCII (white space around it and before the CX block is modelled: str.split)',
                'atoms handed to __eq__ are instances of a periodic-table Element subclass (so they have is_forming_single_bonds)',
                'ring sizes of an atom are taken from MoleculeContainer.sssr (ring perception itself is property C06)']
 
